@@ -33,6 +33,24 @@ Please fix the way your object is copied or your __eq__ implementation.
     return new
 
 
+def contains_user_controlled_parts(value, node):
+    """Is(...), nested snapshots, f-strings, ... inside the value or its code."""
+    from .._adapter.adapter import adapter_map
+
+    if node is not None and any(isinstance(n, ast.JoinedStr) for n in ast.walk(node)):
+        return True
+
+    found = []
+
+    def check(v):
+        if isinstance(v, Unmanaged):
+            found.append(v)
+        return v
+
+    adapter_map(value, check)
+    return bool(found)
+
+
 def contains_star_expression(node):
     return (
         (
